@@ -669,6 +669,7 @@ TARGETS = [
     ("Src_current", "is_error_message_src", "idpyoidc.message.oauth2:is_error_message", {}),
     ("Src_grant", "find_token_src", "idpyoidc.server.session.grant:find_token", {}),
     ("Src_grant", "Grant_get_token_src", "idpyoidc.server.session.grant:Grant.get_token", {}),
+    ("Src_grant_last", "Grant_last_issued_token_of_type_src", "idpyoidc.server.session.grant:Grant.last_issued_token_of_type", {}),
 ]
 
 
